@@ -180,6 +180,32 @@ impl PGen<'_> {
             };
             return if self.rng.chance(1, 2) { eq } else { format!("{eq} AND {}", self.boolean(2)) };
         }
+        // top-level equality between a property of one pattern variable and an expression over
+        // ANOTHER pattern variable (bare, negated, NOT-ed, shifted): the shape a pushdown must leave
+        // alone until both variables are bound, in both operand orders
+        if depth == 0 && self.base.node_vars.len() >= 2 && self.rng.chance(1, 5) {
+            self.kinds.insert("cross-variable-equality");
+            let a = *self.rng.pick(&self.base.node_vars);
+            let others: Vec<&'static str> = self.base.node_vars.iter().copied().filter(|v| *v != a).collect();
+            let b = *self.rng.pick(&others);
+            let key = *self.rng.pick(&["k", "n"]);
+            let rhs = match self.rng.below(7) {
+                0 => format!("{b}.{key}"),
+                1 => format!("-{b}.{key}"),
+                2 => format!("-({b}.{key} - 2)"),
+                3 => format!("{b}.{key} + 1"),
+                4 => format!("abs({b}.{key})"),
+                5 => format!("-{}", self.rng.range(0, 3)),
+                _ => format!("-(-{b}.{key})"),
+            };
+            let eq = match self.rng.below(4) {
+                0 => format!("{rhs} = {a}.{key}"),
+                1 => format!("{a}.flag = NOT {b}.flag"),
+                2 => format!("{a}.name = {b}.name"),
+                _ => format!("{a}.{key} = {rhs}"),
+            };
+            return if self.rng.chance(1, 2) { eq } else { format!("{eq} AND {}", self.boolean(2)) };
+        }
         let choice = self.rng.below(if depth > 2 { 8 } else { 17 });
         match choice {
             0 | 1 => {
